@@ -250,7 +250,7 @@ structure Persp where
   facts : FP
   commands : List Cmd := []
   current : List Update := []
-deriving Repr, Inhabited
+deriving Repr, Inhabited, DecidableEq
 
 def Persp.insert (p : Persp) (k : Key) (v : Val) : Persp :=
   { p with facts := p.facts.insert k v, current := p.current ++ [(k, some v)] }
